@@ -474,7 +474,7 @@ fn opt_case(g: G) -> BoxedStrategy<OptCase> {
 
 pub fn property() -> Property {
     // ids: a fragment marker at the start of a block must not switch an option off for that block
-    let g = G::default().with_ids();
+    let g = G::default().with_ids().with_digit_sup();
     Property {
         id: "C15",
         level: "exploration",
